@@ -187,7 +187,7 @@ func kindTag(k string) string {
 }
 
 var opPool = []string{"<", "<=", "<=>", "=>", "=", "==", "!", "!=", "&&", "&", "|", "||", "~", "@", "#", "$", "%", "^", "+", "++", "-", "->", "*", "**", "/", "//",
-	".^.", "?.", "..", "?-", "<.", "and", "or", "not", "div", "mod", "在", "_op", "x2", "truely", "e"}
+	".^.", "?.", "..", "?-", "<.", "ˆ.ˆ", "<ˆ>", "ˆ", "+ˆ", "ˆ=", ".ˆ", "and", "or", "not", "div", "mod", "在", "_op", "x2", "truely", "e"}
 
 func genOps(t *rapid.T) []string {
 	switch rapid.IntRange(0, 3).Draw(t, "opset") {
@@ -207,7 +207,7 @@ func genOps(t *rapid.T) []string {
 
 var lexSnippets = []string{"true", "false", "truex", "falsey", "xtrue", "and", "android", "or", "not", "nota", "a", "b1", "_x", "名", "é1", "0", "1", "12", "012", "1.5", "1.5.6", "1.", ".5", "1e5", "1e+5", "1e", "1.5e-3", "1e5e6",
 	"0x1F", "0x", "0xg", "0b101", "0b12", "0o17", "0o8", "0b0", "0x0f", `"s"`, `"a\"b"`, `"a\\"`, `"é"`, `"\u12"`, `"\q"`, `"unterminated`, "`raw`", "`un", "'2020-01-01'", "'t", "'a\"b'",
-	".", "?", ":", ",", "(", ")", "[", "]", "{", "}", "<", "<=", "==", "!=", "!", "&&", "||", "+", "-", "*", "/", "%", "^", ">=", ">", "=", "&", "|", "~", "@", "#", "$", "\\", "ˆ", ".^.", "?.", "..", "<=>", "=>",
+	".", "?", ":", ",", "(", ")", "[", "]", "{", "}", "<", "<=", "==", "!=", "!", "&&", "||", "+", "-", "*", "/", "%", "^", ">=", ">", "=", "&", "|", "~", "@", "#", "$", "\\", "ˆ", ".^.", "?.", "..", "<=>", "=>", "ˆ.ˆ", "<ˆ>",
 	" ", "  ", "\t", "\n", "\r\n", " ", "　", "\v", ";", "\"", "'", "`", "💥"}
 
 func genLexCase(t *rapid.T) *LexCase {
@@ -254,6 +254,13 @@ var c09 = Register(&Prop[LexCase]{ID: "C09", Name: "lexer-vs-lexicon", Gen: genL
 var lexAlphabet = []string{"a", "1", "0", ".", "?", "<", "=", "-", "\"", "'", "`", " ", "\n", "e", "x", "("}
 
 func eachLexString(maxLen int, ops []string) func(yield func(*LexCase) bool) {
+	return eachLexStringOver(lexAlphabet, maxLen, ops)
+}
+
+// operators spelled with the one non-ASCII operator character (2 bytes, 1 rune)
+var lexAlphabetWide = []string{"ˆ", ".", "<", ">", "a", "1", " ", "\n", "é"}
+
+func eachLexStringOver(lexAlphabet []string, maxLen int, ops []string) func(yield func(*LexCase) bool) {
 	return func(yield func(*LexCase) bool) {
 		idx := make([]int, maxLen)
 		for n := 0; n <= maxLen; n++ {
@@ -286,7 +293,7 @@ func eachLexString(maxLen int, ops []string) func(yield func(*LexCase) bool) {
 }
 
 func TestC09(t *testing.T) {
-	R.Rule = "input strings over a mixed alphabet (operator characters, ASCII and non-ASCII letters, digits, punctuation, the three quote characters, backslash, blank, tab, line breaks, U+00A0, U+3000): exhaustively up to length 4 (quick) / 5 (thorough) over a 16-symbol alphabet for the built-in and one overlapping custom operator set, and randomly (snippet soup, operator glue, raw runes) to length ~60 under drawn operator sets with prefix-overlapping symbols, identifier-like operators and operators containing . or ?; oracle: a hand-written reference scanner of the documented lexicon (identical token list with kinds, lexemes, ranges, lines, columns, or both reject) plus reference-free partition invariants; non-trivial = >= 2 tokens with a multi-rune token or a line break, or rejected after >= 1 token"
+	R.Rule = "input strings over a mixed alphabet (operator characters, ASCII and non-ASCII letters, digits, punctuation, the three quote characters, backslash, blank, tab, line breaks, U+00A0, U+3000): exhaustively up to length 4 (quick) / 5 (thorough) over a 16-symbol alphabet for the built-in and one overlapping custom operator set, to length 5 / 6 over a 9-symbol alphabet around the non-ASCII operator character U+02C6 with operators spelled with it, and randomly (snippet soup, operator glue, raw runes) to length ~60 under drawn operator sets with prefix-overlapping symbols, identifier-like operators and operators containing . or ?; oracle: a hand-written reference scanner of the documented lexicon (identical token list with kinds, lexemes, ranges, lines, columns, or both reject) plus reference-free partition invariants; non-trivial = >= 2 tokens with a multi-rune token or a line break, or rejected after >= 1 token"
 	R.Assume = []string{"ref.Lex is the reading of the documented lexicon; operator sets avoid ':' (also punctuation) and the words true/false"}
 	reportKnown(t, "C09")
 	runRegress(t, "C09")
@@ -296,5 +303,6 @@ func TestC09(t *testing.T) {
 	}
 	c09.Each(t, fmt.Sprintf("len<=%d builtin", maxLen), eachLexString(maxLen, nil))
 	c09.Each(t, fmt.Sprintf("len<=%d custom", maxLen-1), eachLexString(maxLen-1, []string{"<", "<=", "<=>", "=>", "-", "->", ".<.", "?=", "e", "x1"}))
+	c09.Each(t, fmt.Sprintf("len<=%d wide-operator-characters", maxLen+1), eachLexStringOver(lexAlphabetWide, maxLen+1, []string{"ˆ.ˆ", "<ˆ>", "ˆ", "<", ".ˆ", "é"}))
 	c09.Run(t, budget(20000, 1600000))
 }
